@@ -182,12 +182,18 @@ Definition aggregate_post (f : aggr) (v : aggval) : aggval :=
 
 (* the aggregate branch of construct_sql_ast for a query whose expression is one scalar column: the rows the aggregate function
    sees are the WHERE-filtered rows; DISTINCT inside the function is decided by the method's own `distinct` argument only
-   (COUNT: default True), never by the query's DISTINCT; ORDER BY is dropped; a window is refused (assert) *)
-Definition aggr_distinct (f : aggr) (arg : option bool) : bool :=
-  match arg with Some d => d | None => match f with ACount => true | _ => false end end.
+   (COUNT: default DISTINCT, or -- count_default_follows_query -- the query's own), otherwise never by the query's DISTINCT; ORDER BY is dropped; a window is refused (assert) *)
+Definition aggr_distinct (f : aggr) (arg : option bool) (q : query (A:=Z)) : bool :=
+  match arg with
+  | Some d => d
+  | None => match f with
+            | ACount => if count_default_follows_query then eff_distinct q else true      (* scanned from /repo *)
+            | _ => false
+            end
+  end.
 Definition q_aggregate (f : aggr) (arg : option bool) (q : query (A:=Z)) : result aggval :=
   match combine (q_window q) no_window with
-  | (None, None) => Ok (aggregate_post f (sql_aggregate f (dedup_if Z.eqb (aggr_distinct f arg) (filter (q_keep q) (q_rows q)))))
+  | (None, None) => Ok (aggregate_post f (sql_aggregate f (dedup_if Z.eqb (aggr_distinct f arg q) (filter (q_keep q) (q_rows q)))))
   | _ => Err 2%nat                         (* AssertionError in construct_sql_ast *)
   end.
 (* the Python operation on R = list(q) *)
